@@ -75,6 +75,10 @@ func (d *vfFailDS) Put(ctx context.Context, k ds.Key, v []byte) error {
 	return d.Batching.Put(ctx, k, v)
 }
 
+func vfValidFlag(flag byte, accepting2 bool) bool {
+	return flag == 1 || (flag == 2 && accepting2)
+}
+
 type vfSent struct {
 	to  peer.ID
 	msg *dht_pb.Message
@@ -102,6 +106,9 @@ func VfFullRTSearchValue() {
 	vfHashBits(vfParam("W"))
 	vfHashFixed()
 	vfSchedBudget(vfParam("SWITCH"))
+	if vfBool("tableIsEmpty") {
+		P = 0 // nothing crawled yet: the search must still end (with the local value or not-found)
+	}
 	d, _, snd, ids, accepting2 := vfFullRTClient(P)
 	key := string(vfHashInput("key", []byte("/vf/"), 4))
 	ctx := context.Background()
@@ -148,7 +155,10 @@ func VfFullRTSearchValue() {
 					a.hasRec = vfBool("peer.hasRecord")
 					if a.hasRec {
 						a.keyOK = vfBool("peer.recordKeyMatches")
-						a.flag = vfIte(vfBool("peer.recordValid"), byte(1), byte(0))
+						// invalid (0), valid (1), or the other byte encoding (2): valid too - so that
+						// two byte-different records can rank equally - unless the validator has
+						// stopped accepting it, in which case it is what a stale local copy looks like
+						a.flag = byte(vfChoose("peer.recordFlag", 3))
 						a.rank = vfU8("peer.rank")
 					}
 				}
@@ -223,7 +233,7 @@ func VfFullRTSearchValue() {
 	// every valid value that anybody supplied
 	anyValid := localKind == 1
 	for _, p := range ids {
-		if a := ans[p]; a != nil && !a.fails && a.hasRec && a.keyOK && a.flag == 1 {
+		if a := ans[p]; a != nil && !a.fails && a.hasRec && a.keyOK && vfValidFlag(a.flag, *accepting2) {
 			anyValid = true
 		}
 	}
@@ -237,7 +247,7 @@ func VfFullRTSearchValue() {
 	if !vfQuorumOne && !viaGet {
 		// every answer was received and validated: its value entered the search
 		for _, p := range ids {
-			if a := ans[p]; a != nil && !a.fails && a.hasRec && a.keyOK && a.flag == 1 {
+			if a := ans[p]; a != nil && !a.fails && a.hasRec && a.keyOK && vfValidFlag(a.flag, *accepting2) {
 				ok := len(streamed) > 0 && streamed[len(streamed)-1][1] >= a.rank
 				vfAssert(ok, "fullrt/final-value-at-least-as-good-as-every-valid-value-of-a-received-answer")
 			}
@@ -248,7 +258,7 @@ func VfFullRTSearchValue() {
 		last := streamed[len(streamed)-1]
 		supplied := localKind == 1 && last[1] == localRank
 		for _, p := range ids {
-			if a := ans[p]; a != nil && !a.fails && a.hasRec && a.keyOK && a.flag == 1 && a.rank == last[1] {
+			if a := ans[p]; a != nil && !a.fails && a.hasRec && a.keyOK && vfValidFlag(a.flag, *accepting2) && a.rank == last[1] {
 				supplied = true
 			}
 		}
@@ -260,7 +270,9 @@ func VfFullRTSearchValue() {
 				vfAssert(s.msg.GetRecord().GetValue()[1] == last[1], "fullrt/corrective-put-carries-the-best-value")
 			}
 			a := ans[s.to]
-			returnedBest := a != nil && !a.fails && a.hasRec && a.keyOK && a.flag == 1 && a.rank == last[1]
+			// "returned the best value" = returned these very bytes (an equally ranked
+			// but different record is not the best value and is rightly replaced)
+			returnedBest := a != nil && !a.fails && a.hasRec && a.keyOK && vfValidFlag(a.flag, *accepting2) && a.rank == last[1] && a.flag == last[0]
 			vfAssert(!returnedBest, "fullrt/peers-that-returned-the-best-value-are-not-corrected")
 			n := 0
 			for _, t := range puts {
